@@ -141,6 +141,63 @@ def check_binding_table(ctx, rep, rule, counts=True):
     return tok, tokrank
 
 
+def check_else_if(ctx, rep, rule):
+    """`anders als`: the alternative is a one-statement block holding the whole if-expression that starts at the `als`"""
+    F = ctx.facts()
+    tp = tables.token_precedence(ctx)
+    # ---- R07.4 else-if -------------------------------------------------------------------------
+    pif = F.fn(P + 'parse_if_expr')
+    seen_elseif = 0
+    for p in AbsInt(F, pif).run():
+        if p.exit != 'return':
+            continue
+        r = simp(p.env.get('_0'))
+        if not (r and r[0] == 'agg' and r[2] == 'Ok'):
+            continue
+        # the else-if path: after `anders` the current token was found to be `als`
+        kw_if = ('enum', tables.TOKEN, tables.keyword_table(ctx)['keywords'].get('als'))
+        took_if = False
+        def token_is(c, tokv):
+            """the branch taken established `current token == tokv` (an `==` that came out true, a `!=` that came out false, or the
+            arm of a `match` on the token)"""
+            v = c[0][1] if c[0][0] == 'switch' else None
+            if v and v[0] == 'call' and (v[1].endswith('PartialEq>::eq') or v[1].endswith('PartialEq::eq')) and truth(c) and tokv in [deref(p.env, a) for a in v[2]]:
+                return True
+            if v and v[0] == 'call' and (v[1].endswith('PartialEq>::ne') or v[1].endswith('PartialEq::ne')) and not truth(c) and tokv in [deref(p.env, a) for a in v[2]]:
+                return True
+            if c[0][0] == 'variant' and c[0][2] == tables.TOKEN and c[1] == tokv[2]:
+                return True
+            return False
+        for c in p.constraints:
+            if token_is(c, kw_if):
+                took_if = True
+        if not took_if and not any(c[1] == P + 'parse_statement' for c in p.calls):
+            continue
+        seen_elseif += 1
+        e = r[3][0]
+        alt = e[3][2] if e[0] == 'agg' and e[2] == 'If' and len(e[3]) == 3 else None
+        one_elem = False
+        for w in p.writes:
+            v = simp(w[2])
+            if v[0] == 'agg' and len(v[3]) == 1 and v[3][0][0] == 'okval' and v[3][0][1][0] == 'call' and v[3][0][1][1] == P + 'parse_statement':
+                one_elem = True
+            # ... or the expression statement holding what parse_expr(Lowest) reads at the `als`: the same tree as `anders { als .. }`
+            if v[0] == 'agg' and len(v[3]) == 1 and v[3][0][0] == 'agg' and v[3][0][1] == 'ast::Stmt' and v[3][0][2] == 'Expr' and len(v[3][0][3]) == 1:
+                x = v[3][0][3][0]
+                if x[0] == 'okval' and x[1][0] == 'call' and x[1][1] == P + 'parse_expr' and len(x[1][2]) > 1 and deref(p.env, x[1][2][1]) == ('enum', 'parser::Precedence', tp['order'][0]):
+                    one_elem = True
+        inner = alt[3][0] if alt is not None and alt[0] == 'agg' and alt[2] == 'Some' else None
+        while inner is not None and inner[0] in ('okval',):
+            inner = inner[1]
+        ok = inner is not None and inner[0] == 'call' and 'into_vec' in inner[1] and one_elem
+        cond_ok = any(token_is(c, kw_if) for c in p.constraints)
+        rep.ob(ok and cond_ok, rule, pif.path, 'anders als', 'after `anders`, an `als` token yields a one-statement block holding the whole expression that starts there (as `anders { als .. }` would): %s' % show(alt), pif.loc())
+    rep.count('else_if_paths', seen_elseif)
+    if not seen_elseif:
+        rep.bad(rule, pif.path, 'anders als', 'no path of parse_if_expr parses a nested if-statement after `anders`', pif.loc())
+
+
+
 def run(ctx, rep):
     F = ctx.facts()
     lt = tables.lexer_table(ctx)['table']
@@ -407,56 +464,7 @@ def run(ctx, rep):
                    % sorted({str(c[1]) for c in opsel}), pi.loc())
     rep.count('op_assign_entries', entered)
 
-    # ---- R07.4 else-if -------------------------------------------------------------------------
-    pif = F.fn(P + 'parse_if_expr')
-    seen_elseif = 0
-    for p in AbsInt(F, pif).run():
-        if p.exit != 'return':
-            continue
-        r = simp(p.env.get('_0'))
-        if not (r and r[0] == 'agg' and r[2] == 'Ok'):
-            continue
-        # the else-if path: after `anders` the current token was found to be `als`
-        kw_if = ('enum', tables.TOKEN, tables.keyword_table(ctx)['keywords'].get('als'))
-        took_if = False
-        def token_is(c, tokv):
-            """the branch taken established `current token == tokv` (an `==` that came out true, a `!=` that came out false, or the
-            arm of a `match` on the token)"""
-            v = c[0][1] if c[0][0] == 'switch' else None
-            if v and v[0] == 'call' and (v[1].endswith('PartialEq>::eq') or v[1].endswith('PartialEq::eq')) and truth(c) and tokv in [deref(p.env, a) for a in v[2]]:
-                return True
-            if v and v[0] == 'call' and (v[1].endswith('PartialEq>::ne') or v[1].endswith('PartialEq::ne')) and not truth(c) and tokv in [deref(p.env, a) for a in v[2]]:
-                return True
-            if c[0][0] == 'variant' and c[0][2] == tables.TOKEN and c[1] == tokv[2]:
-                return True
-            return False
-        for c in p.constraints:
-            if token_is(c, kw_if):
-                took_if = True
-        if not took_if and not any(c[1] == P + 'parse_statement' for c in p.calls):
-            continue
-        seen_elseif += 1
-        e = r[3][0]
-        alt = e[3][2] if e[0] == 'agg' and e[2] == 'If' and len(e[3]) == 3 else None
-        one_elem = False
-        for w in p.writes:
-            v = simp(w[2])
-            if v[0] == 'agg' and len(v[3]) == 1 and v[3][0][0] == 'okval' and v[3][0][1][0] == 'call' and v[3][0][1][1] == P + 'parse_statement':
-                one_elem = True
-            # ... or the expression statement holding what parse_expr(Lowest) reads at the `als`: the same tree as `anders { als .. }`
-            if v[0] == 'agg' and len(v[3]) == 1 and v[3][0][0] == 'agg' and v[3][0][1] == 'ast::Stmt' and v[3][0][2] == 'Expr' and len(v[3][0][3]) == 1:
-                x = v[3][0][3][0]
-                if x[0] == 'okval' and x[1][0] == 'call' and x[1][1] == P + 'parse_expr' and len(x[1][2]) > 1 and deref(p.env, x[1][2][1]) == ('enum', 'parser::Precedence', tp['order'][0]):
-                    one_elem = True
-        inner = alt[3][0] if alt is not None and alt[0] == 'agg' and alt[2] == 'Some' else None
-        while inner is not None and inner[0] in ('okval',):
-            inner = inner[1]
-        ok = inner is not None and inner[0] == 'call' and 'into_vec' in inner[1] and one_elem
-        cond_ok = any(token_is(c, kw_if) for c in p.constraints)
-        rep.ob(ok and cond_ok, 'R07.4', pif.path, 'anders als', 'after `anders`, an `als` token yields a one-statement block holding the whole expression that starts there (as `anders { als .. }` would): %s' % show(alt), pif.loc())
-    rep.count('else_if_paths', seen_elseif)
-    if not seen_elseif:
-        rep.bad('R07.4', pif.path, 'anders als', 'no path of parse_if_expr parses a nested if-statement after `anders`', pif.loc())
+    check_else_if(ctx, rep, 'R07.4')
 
     # ---- R07.5 separators ----------------------------------------------------------------------
     ps = F.fn(P + 'parse_statement')
